@@ -45,8 +45,14 @@ func headerToMap(header []byte) (map[string]string, error) {
 	offset := 0
 	m := make(map[string]string)
 	for offset < len(header) {
+		if len(header)-offset < 4 {
+			return nil, fmt.Errorf("short buffer")
+		}
 		fieldlen := binary.LittleEndian.Uint32(header[offset : offset+4])
 		offset += 4
+		if uint64(fieldlen) > uint64(len(header)-offset) {
+			return nil, fmt.Errorf("field length %d exceeds header", fieldlen)
+		}
 		index := bytes.IndexByte(header[offset:offset+int(fieldlen)], '=')
 		if index < 0 {
 			return nil, fmt.Errorf("missing kv separator")
@@ -73,6 +79,9 @@ func extractHeaderValue(header []byte, key []byte) ([]byte, error) {
 		fieldlen, offset, err = getUint32(header, offset)
 		if err != nil {
 			return nil, fmt.Errorf("failed to extract field length: %w", err)
+		}
+		if uint64(fieldlen) > uint64(len(header)-offset) {
+			return nil, fmt.Errorf("field length %d exceeds header", fieldlen)
 		}
 		field := header[offset : offset+int(fieldlen)]
 		separatorIdx := bytes.Index(field, []byte{'='})
@@ -132,7 +141,7 @@ func processBag(
 
 		// header
 		if len(header) < int(headerlen) {
-			header = make([]byte, headerlen*2)
+			header = make([]byte, 2*int(headerlen))
 		}
 		_, err = io.ReadFull(activeReader, header[:headerlen])
 		if err != nil {
@@ -154,10 +163,14 @@ func processBag(
 			return err
 		}
 
+		if len(opcode) != 1 {
+			return fmt.Errorf("invalid op field of %d bytes", len(opcode))
+		}
+
 		if opcode[0] == OpBagChunk {
 			// data
 			if len(chunkData) < int(datalen) {
-				chunkData = make([]byte, datalen*2)
+				chunkData = make([]byte, 2*int(datalen))
 			}
 			_, err = io.ReadFull(activeReader, chunkData[:datalen])
 			if err != nil {
@@ -165,7 +178,7 @@ func processBag(
 			}
 		} else {
 			if len(data) < int(datalen) {
-				data = make([]byte, datalen*2)
+				data = make([]byte, 2*int(datalen))
 			}
 			_, err = io.ReadFull(activeReader, data[:datalen])
 			if err != nil {
@@ -246,6 +259,9 @@ func Bag2MCAP(w io.Writer, r io.Reader, opts *mcap.WriterOptions, messageCallbac
 			if err != nil {
 				return err
 			}
+			if len(conn) != 4 {
+				return fmt.Errorf("invalid conn field of %d bytes", len(conn))
+			}
 			connID := binary.LittleEndian.Uint32(conn)
 			topic, err := extractHeaderValue(header, headerTopic)
 			if err != nil {
@@ -294,10 +310,16 @@ func Bag2MCAP(w io.Writer, r io.Reader, opts *mcap.WriterOptions, messageCallbac
 			if err != nil {
 				return err
 			}
+			if len(conn) != 4 {
+				return fmt.Errorf("invalid conn field of %d bytes", len(conn))
+			}
 			connID := binary.LittleEndian.Uint32(conn)
 			time, err := extractHeaderValue(header, headerTime)
 			if err != nil {
 				return err
+			}
+			if len(time) != 8 {
+				return fmt.Errorf("invalid time field of %d bytes", len(time))
 			}
 			nsecs := rosTimeToNanoseconds(time)
 			channelID, err := channelIDForConnection(connID)
